@@ -37,6 +37,9 @@ def check(ctx):
     ctx.attempt(_forwarding)
     ctx.attempt(_deadparam)
     ctx.attempt(_sibling_verifiers)
+    ctx.attempt(config_separators)
+    ctx.attempt(_direction_writer)
+    ctx.attempt(config_setters_keep_false)
     from .layouts import layout_classes      # the config reader validates `layout.<name>` against this table
     ctx.attempt(layout_classes)
     ctx.attempt(_init_override_order)
@@ -548,6 +551,82 @@ def _init_override_order(ctx):
                               key=f"ORDER|{spec}|override-before-config|{p}", where=common.loc(fi, x))
         if n == 0:
             ctx.undecided('ORDER', f"{spec}: keyword overrides come after the config is applied", 'no `if P is not None: self.P = P` override found')
+
+
+def config_separators(ctx, rule='TBL'):
+    """The reader of one `name<sep>value` setting splits on every separator
+    the config text format allows ('.', '=' and ':'): a valid
+    'qq_depth_min:3' must not be taken for one unknown setting name."""
+    fi = ctx.repo.func('Config._set_str_to_values')
+    splits = [c for c in walk_local(fi.node) if isinstance(c, ast.Call) and dotted(c.func) in ('re.split',) and c.args]
+    construct = "Config._set_str_to_values splits name and value at '.', '=' or ':'"
+    if not splits:
+        ctx.undecided(rule, construct, 're.split(...) not found')
+        return
+    pat = ctx.fold.eval(splits[0].args[0], ctx.fold.func_env(fi), fi.module.name)
+    if not isinstance(pat, str):
+        ctx.undecided(rule, construct, 'split pattern does not fold')
+        return
+    from .. import rx as _rx
+    L = _rx.Lang(pat, 0)
+    missing = [ch for ch in '.=:' if not L.fullmatch(ch)]
+    ctx.check(not missing, rule, construct, f"pattern {pat!r}",
+              f"the split pattern {pat!r} no longer matches {missing}: a setting written `name{missing[0] if missing else ''}value` is "
+              f"taken for a single unknown name and rejected with ValueError although it is valid config text",
+              key=f"{rule}|Config._set_str_to_values|separators|{''.join(missing)}", where=common.loc(fi, splits[0]))
+
+
+def _direction_writer(ctx):
+    """the text form of a default direction is its first letter (what the
+    reader understands as a bare 'n' / 's' / 'e' / 'w')"""
+    w = ctx.repo.func('config.config:attrib_and_val_to_str')
+    rets = [r for r in walk_local(w.node) if isinstance(r, ast.Return) and isinstance(r.value, ast.Subscript)
+            and norm(r.value.value) == 'value']
+    construct = 'attrib_and_val_to_str writes a default direction as its first letter'
+    if not rets:
+        ctx.undecided('TBL', construct, 'no `return value[...]` found')
+        return
+    for r in rets:
+        sl = r.value.slice
+        first = (isinstance(sl, ast.Constant) and sl.value == 0) or (isinstance(sl, ast.Slice) and norm(sl) in (':1', '0:1'))
+        drops_first = (isinstance(sl, ast.Slice) and sl.lower is not None and norm(sl.lower) not in ('0',)) or \
+            (isinstance(sl, ast.Constant) and sl.value not in (0,))
+        ctx.tri(first, drops_first, 'TBL', construct, f"`{norm(r)}`",
+                f"`{norm(r)}` does not return the first letter: 'n' is written as '' and 'north' as 'orth', so Config -> text -> "
+                f"Config (and the config a PLSSDesc hands to its tracts) loses the default direction",
+                key="TBL|attrib_and_val_to_str|direction", where=common.loc(w, r))
+
+
+def config_setters_keep_false(ctx, rule='TBL'):
+    """The .config setters copy every setting the new Config actually carries:
+    the test that decides "carried" is `is not None`.  A bare truthiness test
+    skips an explicit False / 0, so 'clean_qq.False' cannot switch a setting
+    off again."""
+    n = 0
+    for cname, mod in (('Tract', 'tract.tract'), ('PLSSDesc', 'plssdesc.plssdesc')):
+        ci = ctx.repo.cls(f"{mod}:{cname}")
+        setters = [st for st in ci.node.body if isinstance(st, ast.FunctionDef) and st.name == 'config'
+                   and any('setter' in norm(d) for d in st.decorator_list)]
+        for fn in setters:
+            for lp in ast.walk(fn):
+                if not isinstance(lp, ast.For):
+                    continue
+                vals = {a_.targets[0].id for a_ in ast.walk(lp) if isinstance(a_, ast.Assign) and isinstance(a_.targets[0], ast.Name)
+                        and isinstance(a_.value, ast.Call) and dotted(a_.value.func) == 'getattr'}
+                for t in ast.walk(lp):
+                    if isinstance(t, ast.If) and any(isinstance(c, ast.Call) and dotted(c.func) == 'setattr' for c in ast.walk(t)):
+                        lits = [(txt, pol) for _e, txt, pol in literals([(t.test, True)])]
+                        by_identity = any(txt.endswith(' is None') and not pol and txt.split(' ')[0] in vals for txt, pol in lits)
+                        by_truth = any(txt in vals and pol for txt, pol in lits)
+                        n += 1
+                        ctx.tri(by_identity, by_truth and not by_identity, rule,
+                                f"{cname}.config setter applies every setting that is not None",
+                                f"`if {norm(t.test)}`",
+                                f"`if {norm(t.test)}:` skips falsy values: a config that says '<setting>.False' (or a depth of 0) "
+                                f"leaves the old value in place, so re-configuring cannot switch a setting off",
+                                key=f"{rule}|{cname}.config.setter|truthiness", where=f"{ci.module.relpath}:{t.lineno}")
+    if n == 0:
+        ctx.undecided(rule, '.config setters apply every setting that is not None', 'setter loops not recognised')
 
 
 def _forwarding(ctx):
